@@ -22,7 +22,7 @@ from rules.common import TRUSTED
 PROP = "C14"
 EXCEPTIONS = {
     "unpacked_size": "kept by design; replaced through set_unpacked_size (R3)",
-    "partial_input_buf": "only used by the streaming decoder; position is invariantly 0 on raw-decoder paths (C11.R1 / C13.R2)",
+    "partial_input_buf": "only used by the streaming decoder: staged into under mode == Partial only (R1b; C11.R1 / C13.R2 for the consumption side)",
 }
 
 
@@ -554,10 +554,62 @@ def rule_params_size_readers(facts):
     return r
 
 
+def rule_carry_over_premise(facts):
+    """The exception of R1 for `partial_input_buf` rests on a premise: outside streaming (mode == Partial) nothing is ever staged in
+    it, so a raw decoder that is reset cannot hold stale input.  Decided here rather than cited: every call of the staging routine
+    `read_partial_input_buf` in the decode loop lies under the true edge of `mode == Partial`, or under a test that the buffer is
+    non-empty already (the top-up of what a Partial round staged): by induction a decoder that only ever runs in Finish mode - the raw
+    decoders and the one-shot functions - keeps it empty."""
+    from rules import C13
+    r = report.RuleResult("C14.R1b", "the carry-over buffer (not re-initialised by reset) is filled only in Partial mode")
+    p = pat.body_of(facts, "DecoderState::process_mode")
+    r.need("DecoderState::process_mode", p is not None)
+    if p is None:
+        return r
+    tm, c = Terms(p), cfg(p)
+    calls = [blk for blk in p.calls() if (flow.callee(blk.term) or "").endswith("read_partial_input_buf")]
+    others = [b for b in facts.bodies if b is not p and b.promoted is None and
+              any((flow.callee(blk.term) or "").endswith("read_partial_input_buf") for blk in b.calls())]
+    r.sites = len(calls)
+    r.need("the staging call in process_mode (found %d)" % len(calls), len(calls) >= 1)
+    gs, gtm = pat.guards(p)
+
+    def nonempty_guarded(ub):
+        """dominated by the true edge of a test that fails when the buffer is empty (`position() > 0`): topping up what an earlier
+        Partial-mode round staged - by induction never reached by a decoder that runs in Finish mode only."""
+        for (bb, t, z, nz) in gs:
+            if not (pat.has_field(t, "partial_input_buf") and pat.has_call(t, "Cursor::position")) or pat.has_arg(t, "mode"):
+                continue
+            def leaf(q, v):
+                if q[0] == "call" and q[1].endswith("Cursor::position"):
+                    return v
+                raise pat.NotEvaluable(q)
+            try:
+                tv = [pat.eval_cmp(t, lambda q, v=v: leaf(q, v)) for v in range(0, 21)]
+            except (pat.NotEvaluable, pat.Overflow):
+                continue
+            for edge, truth in ((nz, True), (z, False)):
+                if tv[0] == (not truth) and all(x == truth for x in tv[1:]) and (edge == ub or c.dominates(edge, ub)) and len(c.pred[edge]) == 1:
+                    return True
+        return False
+    for blk in calls:
+        if C13.mode_guarded(facts, p, tm, c, blk.idx):
+            r.ok("dominance", {"read_partial_input_buf": "only under mode == Partial"})
+        elif nonempty_guarded(blk.idx):
+            r.ok("dominance", {"read_partial_input_buf": "top-up under `position() > 0` (a buffer that a Partial-mode round filled)"})
+        else:
+            r.bad("carry-over|finish-mode", "input is staged in `partial_input_buf` outside Partial mode: a raw decoder that is reset after a "
+                  "truncated input keeps the staged bytes (reset_state does not clear them) and feeds them to the next stream", pat.where(p, blk.idx))
+    for b in others:
+        r.bad("carry-over|other-caller:%s" % short(b.name), "read_partial_input_buf is also called from %s: cannot verify that the raw decoders "
+              "never stage input" % short(b.name), pat.where(b), "unverifiable")
+    return r
+
+
 def run(ctx, t0):
     facts = ctx.facts()
     from rules import C08
-    rules = [rule_fields(facts), rule_entries(facts), rule_size_and_locals(facts), C08.rule_size_writers(facts, "C14.R3b"), rule_params_size_readers(facts)]
+    rules = [rule_fields(facts), rule_carry_over_premise(facts), rule_entries(facts), rule_size_and_locals(facts), C08.rule_size_writers(facts, "C14.R3b"), rule_params_size_readers(facts)]
     expl = ("Static sibling agreement: the provenance term stored in each DecoderState field by reset_state is compared "
             "with the constructor's (field list taken from the ADT definition), on every path; the reset entry points "
             "are checked by dominance and by comparing the properties argument with the constructor's.")
